@@ -51,14 +51,19 @@ Theorem C11_export_sealed_blames :
 Proof. exact export_sealed_blames. Qed.
 
 (* ---- T0: parametric_erasure.
-   Full statement (both directions of the seal-erasure relation); type-checked, not proved: *)
+   Full statement (both directions of the seal-erasure relation); type-checked, not proved.  What the
+   proved direction leaves open is only a bare run that never produces an outcome
+   (C11_erasure_both_terminate): *)
 Definition C11_full_parametric_erasure : Prop :=
   forall x e T k l0 U d0 t,
     passes_only x e T -> is_svar U = false -> lift (OR d0 U) t t ->
     let sealed := Th [(x, Th [("%v", t)] (SealT k l0 (Var "%v")))] e in
     let bare := Th [(x, t)] e in
     lift (OR (fun _ => MkInt k (OR d0 U)) T) sealed bare
-    /\ (forall n r1, force cfg_real n sealed = r1 -> r1 <> OutOfFuel ->
+    /\ (is_svar T = false ->
+        (* converse; at a quantified type the sealed run stops at the seal without forcing its content,
+           so the converse is only meaningful at the other types *)
+        forall n r1, force cfg_real n sealed = r1 -> r1 <> OutOfFuel ->
           exists m r2, force cfg_real m bare = r2 /\ OR (fun _ => MkInt k (OR d0 U)) T r1 r2).
 
 (* Proved: the direction "whatever the bare run produces, the sealed run produces a related outcome"
